@@ -196,3 +196,47 @@ def layout (g : Graph) (I : List Nat) (F : Nat) : Doc :=
   (topSubjects g I).map (fun s => (s, (propsOf g s).map (fun po => (po.1, emitObj g I F po.2))))
 
 end RV.C03
+
+namespace RV.C03
+
+/-! ### HexTuples rows (rdflib/plugins/serializers/hext.py:_hex_line, parsers/hext.py:_parse_hextuple) -/
+
+abbrev S := List Char
+
+inductive HTerm
+  | iri (i : S)
+  | bnode (label : S)
+  | lit (lex : S) (dt : Option S) (lang : Option S)
+  deriving DecidableEq, Repr
+
+def xsdString : S := "http://www.w3.org/2001/XMLSchema#string".toList
+def rdfLangString : S := "http://www.w3.org/1999/02/22-rdf-syntax-ns#langString".toList
+def globalId : S := "globalId".toList
+def localId : S := "localId".toList
+
+/-- (value, datatype, language) columns of a row for an object term; `[]` is the empty JSON string -/
+def hextObj : HTerm → S × S × S
+  | .iri i => (i, globalId, [])
+  | .bnode b => ('_' :: ':' :: b, localId, [])
+  | .lit lex (some dt) lang => (lex, dt, lang.getD [])
+  | .lit lex none (some l) => (lex, rdfLangString, l)
+  | .lit lex none none => (lex, xsdString, [])
+
+/-- `value.replace("_:", "")` on a label written by `hextObj` (labels contain no `_:` themselves) -/
+def stripBn : S → S
+  | '_' :: ':' :: b => b
+  | b => b
+
+/-- the reader: "" in the language column means none -/
+def hextParseObj (row : S × S × S) : HTerm :=
+  if row.2.1 = globalId then .iri row.1
+  else if row.2.1 = localId then .bnode (stripBn row.1)
+  else if row.2.2 = [] then .lit row.1 (some row.2.1) none
+  else .lit row.1 none (some row.2.2)
+
+/-- RDF 1.1: a simple literal is the xsd:string literal with the same lexical form -/
+def norm11 : HTerm → HTerm
+  | .lit lex none none => .lit lex (some xsdString) none
+  | x => x
+
+end RV.C03
